@@ -8,7 +8,7 @@ Local Open Scope list_scope.
 (* ---- C12: body bytes, before or after the upstream connection completes ------------------------ *)
 
 Definition udata (ops : list upop) : bytes :=
-  concat (map (fun o => match o with UData b => b | UConnected => [] end) ops).
+  concat (map (fun o => match o with UData b => b | _ => [] end) ops).
 
 Lemma udata_app a b : udata (a ++ b) = udata a ++ udata b.
 Proof. unfold udata. rewrite map_app, concat_app. reflexivity. Qed.
@@ -18,13 +18,15 @@ Definition up_inv (head : bytes) (seen : bytes) (s : upst) : Prop :=
   (u_written s = false /\ u_sent s = [] /\ u_pending s = seen).
 
 Lemma up_step_inv head seen s o :
-  up_inv head seen s -> up_inv head (seen ++ match o with UData b => b | UConnected => [] end) (up_step head s o).
+  up_inv head seen s -> up_inv head (seen ++ match o with UData b => b | _ => [] end) (up_step head s o).
 Proof.
-  intros [[Hw [Hs Hp]]|[Hw [Hs Hp]]]; destruct o as [b|]; cbn [up_step]; rewrite Hw.
+  intros [[Hw [Hs Hp]]|[Hw [Hs Hp]]]; destruct o as [b| |]; cbn [up_step]; rewrite ?Hw.
   - left. cbn. rewrite Hs, <- app_assoc. auto.
+  - left. rewrite app_nil_r. auto.
   - left. rewrite app_nil_r. auto.
   - right. cbn. rewrite Hp. auto.
   - left. cbn. rewrite Hs, Hp, app_nil_r. auto.
+  - right. rewrite app_nil_r. auto.
 Qed.
 
 Lemma up_run_inv head ops : forall s seen,
@@ -50,7 +52,7 @@ Proof.
   cbn [app] in Hi.
   assert (G : forall ops s0, u_written (fold_left (up_step head) ops s0) = true <-> (u_written s0 = true \/ In UConnected ops)).
   { clear. induction ops as [|o r IH]; intros s0; cbn [fold_left In]; [tauto|].
-    rewrite IH. destruct o as [b|]; cbn [up_step]; destruct (u_written s0) eqn:E; cbn [u_written];
+    rewrite IH. destruct o as [b| |]; cbn [up_step]; destruct (u_written s0) eqn:E; cbn [u_written];
       intuition (auto; try discriminate; try congruence). }
   assert (Hw : u_written (fold_left (up_step head) ops {| u_written := false; u_pending := []; u_sent := [] |}) = true <-> In UConnected ops).
   { rewrite G. cbn. split; [intros [H|H]; [discriminate|exact H]|auto]. }
@@ -392,3 +394,14 @@ Qed.
 
 Theorem closes_with_upstream s : d_parsed s = true -> snd (down_step s DError) = [AClose].
 Proof. intros Hp. cbn. rewrite Hp. reflexivity. Qed.
+
+(* whatever the upstream sends back, and whenever (its response head before the request body is complete, parts of its body
+   between two body segments): the request stream it receives is the same as if it had stayed silent *)
+Theorem upstream_answers_do_not_matter head ops :
+  u_sent (up_run head ops) = u_sent (up_run head (filter (fun o => match o with UAnswer => false | _ => true end) ops)) /\
+  u_pending (up_run head ops) = u_pending (up_run head (filter (fun o => match o with UAnswer => false | _ => true end) ops)).
+Proof.
+  unfold up_run. generalize {| u_written := false; u_pending := []; u_sent := [] |}.
+  induction ops as [|o ops IH]; intros s; [split; reflexivity|].
+  destruct o as [b| |]; cbn [filter fold_left]; try apply IH.
+Qed.
